@@ -213,6 +213,7 @@ def c11_vocab(run):
     rf_vocab.rf96(run)
     rf_bounds.rf88(run)
     rf_vocab.rf85b(run)
+    rf_vocab.rf115(run)
 
 
 def c10_vocab(run):
@@ -317,6 +318,7 @@ def c01_rf18(run):
     rf_flow.rf99(run)
     rf_flow.rf67(run, units=('gen',))
     rf_x86.rf110(run)
+    rf_flow.rf114(run)
 
 
 def c04_rf18(run):
